@@ -12,6 +12,9 @@ type c20 struct{}
 
 func init() { register("C20", c20{}) }
 
+// c20Wrapped: a caller's descriptor type (the stream-level queries are defined on the PmtDescriptor interface).
+type c20Wrapped struct{ psi.PmtDescriptor }
+
 func c20Body(r *rand.Rand, tag int, ln int) []byte {
 	b := make([]byte, ln)
 	r.Read(b)
@@ -154,6 +157,10 @@ func (c20) Exec(h []Ev) []Ev {
 					if es2.MaxBitRate() != es.MaxBitRate() || es2.IsTTMLSubtitling() != es.IsTTMLSubtitling() {
 						same = false
 					}
+				}
+				// the same descriptor held in a caller's own type that implements the public interface (here by embedding)
+				if es3 := psi.NewPmtElementaryStream(0x1b, 0x100, []psi.PmtDescriptor{c20Wrapped{d}}); es3.MaxBitRate() != es.MaxBitRate() || es3.IsTTMLSubtitling() != es.IsTTMLSubtitling() {
+					same = false
 				}
 				e["es_among_others_same"] = same
 			})
